@@ -18,6 +18,7 @@ import (
 	"crypto/x509/pkix"
 	"encoding/pem"
 	"fmt"
+	"io"
 	"math/big"
 	"net"
 	"net/http"
@@ -188,10 +189,14 @@ func newBinFixtures(dir string) (fx *binFixtures, err error) {
 		resp := new(dns.Msg)
 		resp.SetReply(req)
 		if len(req.Question) == 1 && req.Question[0].Qtype == dns.TypeA {
-			resp.Answer = append(resp.Answer, &dns.A{
-				Hdr: dns.RR_Header{Name: req.Question[0].Name, Rrtype: dns.TypeA, Class: dns.ClassINET, Ttl: 60},
-				A:   net.IP{192, 0, 2, 9},
-			})
+			if big := bigAnswer(req); big != nil {
+				resp = big
+			} else {
+				resp.Answer = append(resp.Answer, &dns.A{
+					Hdr: dns.RR_Header{Name: req.Question[0].Name, Rrtype: dns.TypeA, Class: dns.ClassINET, Ttl: 60},
+					A:   net.IP{192, 0, 2, 9},
+				})
+			}
 		}
 		_ = w.WriteMsg(resp)
 	})
@@ -202,6 +207,41 @@ func newBinFixtures(dir string) (fx *binFixtures, err error) {
 	fx.upstream = pc.LocalAddr().String()
 	fx.closers = append(fx.closers, func() { _ = us.Shutdown(); _ = ts.Shutdown() })
 	return fx, nil
+}
+
+// bigAnswer is the stub upstream's answer for names "q<id>-big<k>-...": many
+// A records under the (long) question name, k*binEst + binEst/3 bytes long
+// without name compression -- and far below binEst with it.  nil for all
+// other names.
+const binEst = 1024
+
+func bigAnswer(req *dns.Msg) *dns.Msg {
+	name := req.Question[0].Name
+	i := strings.Index(name, "-big")
+	if i < 0 {
+		return nil
+	}
+	k := 0
+	for _, ch := range name[i+4:] {
+		if ch < '0' || ch > '9' {
+			break
+		}
+		k = k*10 + int(ch-'0')
+	}
+	if k == 0 {
+		return nil
+	}
+	resp := new(dns.Msg)
+	resp.SetReply(req)
+	resp.Compress = false
+	target := k*binEst + binEst/3
+	for n := 0; resp.Len() < target; n++ {
+		resp.Answer = append(resp.Answer, &dns.A{
+			Hdr: dns.RR_Header{Name: name, Rrtype: dns.TypeA, Class: dns.ClassINET, Ttl: 60},
+			A:   net.IP{192, 0, byte(2 + n/250), byte(1 + n%250)},
+		})
+	}
+	return resp
 }
 
 func acceptAndClose(l net.Listener) {
@@ -269,7 +309,7 @@ cache:
         min: 60s
 upstream:
     servers:
-      - address: '%s'
+      - address: 'tcp://%s'
         timeout: 2s
     fallback:
         servers:
@@ -599,6 +639,13 @@ func (c *binClient) close() { _ = c.conn.Close() }
 
 // send sends one A query for a fresh name (no cache hit) and returns its id.
 func (c *binClient) send(name string) uint16 {
+	id, _ := c.sendMsg(name)
+	return id
+}
+
+// sendMsg is send that also returns the query (no EDNS: a large answer is
+// truncated for the client).
+func (c *binClient) sendMsg(name string) (uint16, *dns.Msg) {
 	c.mu.Lock()
 	c.next++
 	id := c.next
@@ -613,7 +660,7 @@ func (c *binClient) send(name string) uint16 {
 	c.mu.Lock()
 	c.sent[id] = span{t0, t1}
 	c.mu.Unlock()
-	return id
+	return id, q
 }
 
 func (c *binClient) answered(id uint16) bool {
@@ -633,6 +680,54 @@ type binLimiter struct {
 	clients map[netip.Addr]*binClient
 	dropped float64
 	lost    func(why string)
+	// bigK > 0: the next queries ask for a name whose answer is bigK estimates
+	// long; useTCP: they are sent over TCP (one connection per query).
+	bigK    int
+	useTCP  bool
+	lastReq *dns.Msg
+}
+
+// binName is the question name of a query: long first label, so that the
+// records of a large answer shrink to a fraction under name compression.
+func (l *binLimiter) binName() string {
+	if l.bigK > 0 {
+		return fmt.Sprintf("big%d-%s.c09.example.", l.bigK, strings.Repeat("x", 44))
+	}
+	return "c09.example."
+}
+
+// tcpQuery sends q over a fresh TCP connection from src and reports the
+// answer on the returned channel (closed without a value when none came).
+func tcpQuery(srv *net.UDPAddr, src net.IP, q *dns.Msg) (<-chan struct{}, func(), error) {
+	d := net.Dialer{LocalAddr: &net.TCPAddr{IP: src}, Timeout: 3 * time.Second}
+	conn, err := d.Dial("tcp4", srv.String())
+	if err != nil {
+		return nil, nil, err
+	}
+	b, _ := q.Pack()
+	buf := append([]byte{byte(len(b) >> 8), byte(len(b))}, b...)
+	if _, err = conn.Write(buf); err != nil {
+		_ = conn.Close()
+		return nil, nil, err
+	}
+	ch := make(chan struct{}, 1)
+	go func() {
+		defer close(ch)
+		_ = conn.SetReadDeadline(time.Now().Add(5 * time.Second))
+		hdr := make([]byte, 2)
+		if _, rerr := io.ReadFull(conn, hdr); rerr != nil {
+			return
+		}
+		body := make([]byte, int(hdr[0])<<8|int(hdr[1]))
+		if _, rerr := io.ReadFull(conn, body); rerr != nil {
+			return
+		}
+		m := new(dns.Msg)
+		if m.Unpack(body) == nil && m.Id == q.Id {
+			ch <- struct{}{}
+		}
+	}()
+	return ch, func() { _ = conn.Close() }, nil
 }
 
 func (l *binLimiter) IsRateLimited(_ context.Context, _ *dns.Msg, ip netip.Addr) (drop, allow bool, err error) {
@@ -645,10 +740,41 @@ func (l *binLimiter) IsRateLimited(_ context.Context, _ *dns.Msg, ip netip.Addr)
 		}
 		l.clients[ip] = cl
 	}
-	id := cl.send("c09.example.")
+	var id uint16
+	answered := func() bool { return cl.answered(id) }
+	if l.useTCP {
+		q := new(dns.Msg)
+		cl.mu.Lock()
+		cl.next++
+		id = cl.next
+		cl.mu.Unlock()
+		q.SetQuestion(fmt.Sprintf("q%d-%s", id, l.binName()), dns.TypeA)
+		q.Id = id
+		l.lastReq = q
+		ch, closeConn, terr := tcpQuery(l.c.dnsAddr, ip.AsSlice(), q)
+		if terr != nil {
+			l.lost("tcp: " + terr.Error())
+			return false, false, nil
+		}
+		defer closeConn()
+		got := false
+		answered = func() bool {
+			if got {
+				return true
+			}
+			select {
+			case _, ok := <-ch:
+				got = ok
+			default:
+			}
+			return got
+		}
+	} else {
+		id, l.lastReq = cl.sendMsg(l.binName())
+	}
 	deadline := time.Now().Add(3 * time.Second)
 	for i := 0; ; i++ {
-		if cl.answered(id) {
+		if answered() {
 			return false, false, nil
 		}
 		if i < 8 {
@@ -656,7 +782,7 @@ func (l *binLimiter) IsRateLimited(_ context.Context, _ *dns.Msg, ip netip.Addr)
 			continue
 		}
 		d, derr := l.c.dropped()
-		if cl.answered(id) {
+		if answered() {
 			return false, false, nil
 		}
 		switch {
@@ -719,6 +845,11 @@ func layer4Binary(r *vkit.Run) (wait func()) {
 				guard(r, "binary", i, func() { binaryCase(r, bin, fx, filepath.Join(dir, fmt.Sprintf("child%d", i)), i, rl) })
 			}()
 		}
+		wg2.Add(1)
+		go func() {
+			defer wg2.Done()
+			guard(r, "binary-weight", 2, func() { binaryWeightCase(r, bin, fx, filepath.Join(dir, "child2")) })
+		}()
 		wg2.Wait()
 	}()
 	return wg.Wait
@@ -793,4 +924,67 @@ func binaryCase(r *vkit.Run, bin string, fx *binFixtures, dir string, idx int, r
 	}
 	r.Sample(map[string]any{"layer": 4, "family": "binary", "ratelimit_yaml": c.witness(), "ops": m.trace})
 	m.finish(fmt.Sprintf("L4binary/period%s/duration%s", rl.Period, rl.Duration))
+}
+
+// binaryWeightCase: large responses count as several events also on the real
+// write path.  The stub upstream answers with many A records (3 estimates
+// long as the handlers see it); the plain-DNS writers truncate it for a UDP
+// client without EDNS and compress it for a TCP client, both far below one
+// estimate.  The subnet must still be charged 1+3 events.
+func binaryWeightCase(r *vkit.Run, bin string, fx *binFixtures, dir string) {
+	rl := binRL{Count: 6, Interval: 4 * time.Second, Period: 10 * time.Second, Duration: 10 * time.Second, BOCount: 1000}
+	child, err := startBinary(bin, fx, dir, rl)
+	if child != nil {
+		defer child.stop()
+	}
+	if err != nil {
+		r.Inconclusive("layer 4: " + err.Error())
+		return
+	}
+	base, err := child.dropped()
+	if err != nil {
+		r.Inconclusive("layer 4: cannot read the program's metrics: " + err.Error())
+		return
+	}
+	c := bcfg{N4: uint(rl.Count), N6: uint(rl.Count), I4: rl.Interval, I6: rl.Interval, K4: 24, K6: 48,
+		Period: rl.Period, Duration: rl.Duration, Count: uint(rl.BOCount), Est: binEst, RefuseANY: true}
+	m := newMon(r, "binary/response-weight", 2, c)
+	m.keyPrefix = "binary:response-weight:"
+	lim := &binLimiter{c: child, clients: map[netip.Addr]*binClient{}, dropped: base}
+	lim.lost = func(why string) {
+		m.step = true
+		r.Bucket("l4_binary_observation_lost", 1)
+		m.trace = append(m.trace, traceRec{Op: "observation lost: " + why})
+	}
+	defer lim.close()
+	m.l = lim
+	const k = 3
+	for si, tcp := range []bool{false, true, false, true} {
+		ip := netip.AddrFrom4([4]byte{127, 9, byte(60 + si), byte(9 + si)})
+		lim.useTCP, lim.bigK = tcp, k
+		dropped := m.query(ip, dns.TypeA)
+		lim.bigK = 0
+		how := "udp without EDNS (answer truncated for the client)"
+		if tcp {
+			how = "tcp (answer compressed for the client)"
+		}
+		if dropped || lim.lastReq == nil {
+			continue
+		}
+		size := bigAnswer(lim.lastReq).Len()
+		m.trace = append(m.trace, traceRec{Op: "large answer over " + how, Size: size})
+		m.noteResponse(ip, size-64, size+64)
+		for j := 0; j < rl.Count-1; j++ {
+			m.query(ip, dns.TypeA)
+			if m.last.mustDrop && m.last.drop {
+				if tcp {
+					r.Bucket("l4_binary_weight_drop_tcp", 1)
+				} else {
+					r.Bucket("l4_binary_weight_drop_udp", 1)
+				}
+			}
+		}
+	}
+	r.Sample(map[string]any{"layer": 4, "family": "binary/response-weight", "ratelimit_yaml": c.witness(), "ops": m.trace})
+	m.finish("L4binary/response-weight")
 }
